@@ -555,7 +555,7 @@ impl<'de> de::Deserializer<'de> for Value {
             Value::Integer(n) => visitor.visit_i64(n),
             Value::Float(n) => visitor.visit_f64(n),
             Value::String(v) => visitor.visit_string(v),
-            Value::Datetime(v) => visitor.visit_string(v.to_string()),
+            Value::Datetime(v) => visitor.visit_map(DatetimeDeserializer::new(v)),
             Value::Array(v) => {
                 let len = v.len();
                 let mut deserializer = SeqDeserializer::new(v);
@@ -671,6 +671,43 @@ impl<'de> de::SeqAccess<'de> for SeqDeserializer {
         match self.iter.size_hint() {
             (lower, Some(upper)) if lower == upper => Some(upper),
             _ => None,
+        }
+    }
+}
+
+/// Hands a date-time to the visitor through `toml_datetime`'s private struct, as `toml_edit` does
+struct DatetimeDeserializer {
+    date: Option<Datetime>,
+}
+
+impl DatetimeDeserializer {
+    fn new(date: Datetime) -> Self {
+        DatetimeDeserializer { date: Some(date) }
+    }
+}
+
+impl<'de> de::MapAccess<'de> for DatetimeDeserializer {
+    type Error = crate::de::Error;
+
+    fn next_key_seed<K>(&mut self, seed: K) -> Result<Option<K::Value>, crate::de::Error>
+    where
+        K: de::DeserializeSeed<'de>,
+    {
+        if self.date.is_some() {
+            seed.deserialize(de::value::BorrowedStrDeserializer::new(datetime::FIELD))
+                .map(Some)
+        } else {
+            Ok(None)
+        }
+    }
+
+    fn next_value_seed<V>(&mut self, seed: V) -> Result<V::Value, crate::de::Error>
+    where
+        V: de::DeserializeSeed<'de>,
+    {
+        match self.date.take() {
+            Some(date) => seed.deserialize(date.to_string().into_deserializer()),
+            None => Err(de::Error::custom("value is missing")),
         }
     }
 }
